@@ -766,6 +766,8 @@ class C14:
             if p is None:
                 return False
             try:
+                if not docgen.Doc.from_json(p['doc']).consistent():
+                    return False
                 kp.loads(self._text(p))
             except Exception:
                 return False
